@@ -46,7 +46,7 @@ def rawHeadersAux : Nat → Bool → Bytes → Option Nat
   | lineLen, onlyCR, c :: t =>
     if c = 10 then
       if lineLen = 0 ∨ (lineLen = 1 ∧ onlyCR) then some 1 else (rawHeadersAux 0 false t).map (· + 1)
-    else (rawHeadersAux (lineLen + 1) (lineLen = 0 ∧ c = 13) t).map (· + 1)
+    else (rawHeadersAux (lineLen + 1) (lineLen == 0 && c == 13) t).map (· + 1)
 
 def rawHeadersLen (b : Bytes) : Option Nat := rawHeadersAux 0 false b
 
